@@ -23,3 +23,14 @@ func TestC06(t *testing.T) {
 		Run: runCase(t),
 	})
 }
+
+// TestC06Directed runs the same oracles on the identifier-confusion corner of the case space (see genDirected).
+func TestC06Directed(t *testing.T) {
+	vx.Check(t, vx.Prop[mcase]{
+		ID:        "C06",
+		Rule:      "as TestC06, narrowed to worlds where a sibling identifier on the proof chain equals the identifier the message names for the other chain, with single-mutation trials drawn from the wrong-key / wrong-counterparty catalogue entries; non-trivial and distinctness as TestC06",
+		MinNTFrac: 0.6,
+		Gen:       genDirected("C06"),
+		Run:       runCase(t),
+	})
+}
